@@ -36,6 +36,11 @@ RECS = [
     ('R2/P2', {'form': 'Rn/Pk', 'n': 2, 'k': 2}),
     ('R1/2', {'form': 'R1/S', 'S': ('abs', 2)}),
     ('R2//P2', {'form': 'Rn//Pk', 'n': 2, 'k': 2}),
+    # explicit starts before the initial point: the first instance is the
+    # first member of start + n*k at or after the initial point
+    ('0/P3', {'form': 'S/Pk', 'S': ('abs', 0), 'k': 3}),
+    ('-1/P3', {'form': 'S/Pk', 'S': ('abs', -1), 'k': 3}),
+    ('-P1/P3', {'form': 'S/Pk', 'S': ('rel', -1), 'k': 3}),
 ]
 REC_BY_TEXT = dict(RECS)
 
